@@ -21,12 +21,12 @@ import (
 //                         so its length test must be a lower bound (len(data) < Size), never an (in)equality
 // These functions do not register a property; c18.go calls them.
 
-var applayerPkgs = []string{"applayer/clocksync", "applayer/multicastsetup", "applayer/fragmentation", "applayer/firmwaremanagement"}
+var c18ApplayerPkgs = []string{"applayer/clocksync", "applayer/multicastsetup", "applayer/fragmentation", "applayer/firmwaremanagement"}
 
-func applayerMethods(P *load.Program, name string) []*ssa.Function {
+func c18ApplayerMethods(P *load.Program, name string) []*ssa.Function {
 	var out []*ssa.Function
 	seen := map[*ssa.Function]bool{}
-	for _, rel := range applayerPkgs {
+	for _, rel := range c18ApplayerPkgs {
 		sp := P.SSAPkg(rel)
 		if sp == nil {
 			continue
@@ -60,7 +60,7 @@ func c18EncoderTotal(c *Ctx) {
 	r := c.Run
 	P := c.Prog
 	r.Rule("R4.encodertotal", "every index/slice/make/intrinsic-precondition and pointer dereference reachable from an applayer MarshalBinary is discharged by a dominating guard")
-	roots := applayerMethods(P, "MarshalBinary")
+	roots := c18ApplayerMethods(P, "MarshalBinary")
 	if len(roots) < 30 {
 		r.Unknown("R4.encodertotal", "applayer MarshalBinary methods", "", "at least 30 encoders in the four applayer packages", fmt.Sprintf("found %d", len(roots)))
 		return
@@ -76,9 +76,9 @@ func c18EncoderTotal(c *Ctx) {
 	for _, f := range roots {
 		a := E.AnalyzeCtx(f)
 		if a == nil || !a.Converged {
-			r.Unknown("R4.encodertotal", fnName(f), P.Rel(f.Pos()), "encoder analysed", "dataflow did not converge")
+			r.Unknown("R4.encodertotal", guardFnName(f), P.Rel(f.Pos()), "encoder analysed", "dataflow did not converge")
 		} else {
-			r.OK("R4.encodertotal.roots", fnName(f), P.Rel(f.Pos()), "encoder analysed", fmt.Sprintf("%d blocks", len(f.Blocks)), false)
+			r.OK("R4.encodertotal.roots", guardFnName(f), P.Rel(f.Pos()), "encoder analysed", fmt.Sprintf("%d blocks", len(f.Blocks)), false)
 		}
 	}
 }
@@ -86,9 +86,9 @@ func c18EncoderTotal(c *Ctx) {
 // ---------------------------------------------------------------------------
 // R3 STREAM-CONVENTION
 
-// registeredPayloadTypes: the payload types a package's command registry can instantiate (closures stored in the
+// c18RegisteredPayloadTypes: the payload types a package's command registry can instantiate (closures stored in the
 // package-level map literal, each returning &T{}).
-func registeredPayloadTypes(P *load.Program, rel string) map[*types.Named]bool {
+func c18RegisteredPayloadTypes(P *load.Program, rel string) map[*types.Named]bool {
 	out := map[*types.Named]bool{}
 	sp := P.SSAPkg(rel)
 	if sp == nil {
@@ -136,8 +136,8 @@ func c18StreamConvention(c *Ctx) {
 	P := c.Prog
 	r.Rule("R3.stream", "a registered payload decoder tests len(data) as a lower bound (<, <=): an equality / inequality test rejects the payload whenever another command follows it in the same buffer")
 	total := 0
-	for _, rel := range applayerPkgs {
-		regs := registeredPayloadTypes(P, rel)
+	for _, rel := range c18ApplayerPkgs {
+		regs := c18RegisteredPayloadTypes(P, rel)
 		if len(regs) == 0 {
 			r.Unknown("R3.stream", rel, "", "the package registers payload constructors in a map literal", "none found")
 			continue
@@ -156,12 +156,12 @@ func c18StreamConvention(c *Ctx) {
 			}
 			total++
 			r.Saw("registered payload decoders", key)
-			data := dataParam(fn)
+			data := c18DataParam(fn)
 			if data == nil {
 				r.Unknown("R3.stream", key, P.Rel(fn.Pos()), "decoder has a []byte parameter", "none")
 				continue
 			}
-			tests := lengthTests(fn, data)
+			tests := c18LengthTests(fn, data)
 			if len(tests) == 0 {
 				r.OK("R3.stream", key, P.Rel(fn.Pos()), "rejecting length tests are lower bounds", "no length test rejects input", false)
 				continue
@@ -189,7 +189,7 @@ func c18StreamConvention(c *Ctx) {
 	r.Note("R3.stream: %d registered payload decoders examined", total)
 }
 
-func dataParam(fn *ssa.Function) *ssa.Parameter {
+func c18DataParam(fn *ssa.Function) *ssa.Parameter {
 	for _, p := range fn.Params {
 		if sl, ok := p.Type().Underlying().(*types.Slice); ok {
 			if b, ok := sl.Elem().Underlying().(*types.Basic); ok && b.Kind() == types.Uint8 {
@@ -200,13 +200,13 @@ func dataParam(fn *ssa.Function) *ssa.Parameter {
 	return nil
 }
 
-type lenTest struct {
+type c18LenTest struct {
 	cmp      *ssa.BinOp
 	other    ssa.Value
 	rejectOp token.Token // the input is rejected when  len(data) rejectOp other
 }
 
-func flipCmp(op token.Token) token.Token {
+func c18FlipCmp(op token.Token) token.Token {
 	switch op {
 	case token.LSS:
 		return token.GTR
@@ -220,7 +220,7 @@ func flipCmp(op token.Token) token.Token {
 	return op
 }
 
-func negCmp(op token.Token) token.Token {
+func c18NegCmp(op token.Token) token.Token {
 	switch op {
 	case token.LSS:
 		return token.GEQ
@@ -238,17 +238,17 @@ func negCmp(op token.Token) token.Token {
 	return op
 }
 
-// errorReturn: the block returns a non-nil error right away.
-func errorReturn(b *ssa.BasicBlock) bool {
+// c18ErrorReturn: the block returns a non-nil error right away.
+func c18ErrorReturn(b *ssa.BasicBlock) bool {
 	ret, ok := b.Instrs[len(b.Instrs)-1].(*ssa.Return)
 	if !ok || len(ret.Results) == 0 {
 		return false
 	}
-	return !isNilConstV(ret.Results[len(ret.Results)-1])
+	return !isNilConstValue(ret.Results[len(ret.Results)-1])
 }
 
-// lengthTests: branch conditions comparing len(data) where one side of the branch returns an error at once.
-func lengthTests(fn *ssa.Function, data *ssa.Parameter) []lenTest {
+// c18LengthTests: branch conditions comparing len(data) where one side of the branch returns an error at once.
+func c18LengthTests(fn *ssa.Function, data *ssa.Parameter) []c18LenTest {
 	isLen := func(v ssa.Value) bool {
 		call, ok := v.(*ssa.Call)
 		if !ok {
@@ -257,7 +257,7 @@ func lengthTests(fn *ssa.Function, data *ssa.Parameter) []lenTest {
 		b, ok := call.Call.Value.(*ssa.Builtin)
 		return ok && b.Name() == "len" && call.Call.Args[0] == ssa.Value(data)
 	}
-	var out []lenTest
+	var out []c18LenTest
 	for _, b := range fn.Blocks {
 		iff, ok := b.Instrs[len(b.Instrs)-1].(*ssa.If)
 		if !ok {
@@ -289,18 +289,18 @@ func lengthTests(fn *ssa.Function, data *ssa.Parameter) []lenTest {
 			other = bo.Y
 		case isLen(bo.Y):
 			other = bo.X
-			op = flipCmp(op)
+			op = c18FlipCmp(op)
 		default:
 			continue
 		}
 		if neg {
-			op = negCmp(op)
+			op = c18NegCmp(op)
 		}
 		switch {
-		case errorReturn(b.Succs[0]) && !errorReturn(b.Succs[1]):
-			out = append(out, lenTest{bo, other, op})
-		case errorReturn(b.Succs[1]) && !errorReturn(b.Succs[0]):
-			out = append(out, lenTest{bo, other, negCmp(op)})
+		case c18ErrorReturn(b.Succs[0]) && !c18ErrorReturn(b.Succs[1]):
+			out = append(out, c18LenTest{bo, other, op})
+		case c18ErrorReturn(b.Succs[1]) && !c18ErrorReturn(b.Succs[0]):
+			out = append(out, c18LenTest{bo, other, c18NegCmp(op)})
 		}
 	}
 	return out
